@@ -84,6 +84,8 @@ def run(ctx):
     pick = rng.sample(scs, 1800 if thorough else 260)
     pick += [s for s in scs if s["side"] and s["side"][0] in ("acc_release", "req_release") and s["end"] == "release" and not s["ops"]][:12]   # release collisions
     pick += [s for s in scs if "+" in s["end"] and len(s["ops"]) <= 1 and (not s["ops"] or s["ops"][0] == "echo")]                       # two terminal calls in sequence
+    pick += [s for s in scs if s["reject"]]                                                                                               # rejections: AE title (source 1), local limit (source 3)
+    pick += [s for s in scs if s["acc"] == "notify_abort" and len(s["ops"]) <= 1 and not s["side"]]                                         # abort() from a notification handler during release
     obs, rec = run_scenarios(ctx, pick, ctx.seed)
     judge(ctx, obs, rec, "C06")
     ctx.sample(obs[0])
